@@ -1,5 +1,5 @@
 (* Part 2 of the report-exactness proof: executing the checks the generator emits for one field. *)
-From GV Require Import Base.Bytes Base.Utf8 Base.StrOps Base.GoFloat GoLite.Syntax GoLite.Sem Gen.Decl Gen.Rules Gen.Template Gen.Spec Gen.GenProofs1.
+From GV Require Import Base.Bytes Base.Utf8 Base.StrOps Base.GoFloat GoLite.Syntax GoLite.Sem Gen.Decl Gen.Rules Gen.Template Gen.Spec Gen.GenProofs1 Gen.Typed.
 
 (* ---------- conditions produced by make_cond never panic ---------- *)
 Section NoPanic.
@@ -47,6 +47,7 @@ Section Run.
   Variable ipc : bytes -> ipclass.
   Variable tab : numtab.
   Variable tbl : list (ident * (bytes * bytes)).      (* the sentinel table of the generated file *)
+  Variable SA : Prop.     (* "stuck allowed": some marker parameter of the declaration is outside the documented language *)
   Notation ev := (eval_cond ipc).
   Notation runi := (run_item ipc background tbl).
   Notation runs := (run_items ipc background tbl).
@@ -58,7 +59,7 @@ Section Run.
      appended exactly the wanted entries and touched nothing else *)
   Definition good (res : st + outcome) (s : st) (ws : list want) : Prop :=
     match res with
-    | inr o => o_res o = RStuck
+    | inr o => o_res o = RStuck /\ SA
     | inl s' => map proj (s_errs s') = map proj (s_errs s) ++ map projw ws /\
                 s_local s' = None /\ s_gw s' = s_gw s /\
                 s_allocs s' = s_allocs s + 2 * length ws
@@ -122,10 +123,13 @@ Section Run.
     get_field cur n = Some v -> has_type v t = true ->
     (forall vd, In vd (make_validators tab ms n t S parent) -> v_cond vd <> None ->
                 lookup_sentinel tbl (v_errvar vd) = Some (v_path vd, v_rulename vd)) ->
+    (ms_params_ok tab ms t = false -> SA) ->
     forall s, s_local s = None ->
     good (runs root (checks_of (make_validators tab ms n t S parent)) sh s) s (want_for ipc tab ms S parent n t v).
   Proof.
-    intros Hp Hf Ht. induction ms as [|m ms IH]; intros Hlook s Hl.
+    intros Hp Hf Ht. induction ms as [|m ms IH]; intros Hlook Hpar s Hl.
+    2: assert (Hpar' : ms_params_ok tab ms t = false -> SA)
+         by (intro X; apply Hpar; unfold ms_params_ok; cbn [forallb]; fold (ms_params_ok tab ms t); rewrite X; apply andb_false_r).
     - apply good_nil. exact Hl.
     - unfold make_validators, want_for, checks_of in *. cbn [flat_map] in *.
       fold (make_validators tab ms n t S parent) in *. fold (want_for ipc tab ms S parent n t v) in *.
@@ -136,7 +140,7 @@ Section Run.
         cbn [app] in *. apply IH; auto.
       + (* a validator whose Validate() is empty: declared nowhere, checked nowhere *)
         rewrite (cond_absent ipc tab r n t (mk_arg m) v) by (try (intros c; rewrite M; discriminate); exact Ht).
-        cbn [app flat_map v_cond] in *. apply IH; [|exact Hl]. intros vd Hin. apply Hlook. right. exact Hin.
+        cbn [app flat_map v_cond] in *. apply IH; [|exact Hpar'|exact Hl]. intros vd Hin. apply Hlook. right. exact Hin.
       + (* a check *)
         pose proof (Hlook _ (or_introl eq_refl) ltac:(discriminate)) as L.
         cbn [v_errvar v_path v_rulename v_rule v_struct v_parent v_field] in L.
@@ -145,11 +149,14 @@ Section Run.
         rewrite run_items_app by (constructor; [exact I|constructor]).
         cbn [run_items]. rewrite (run_check root sh s cur c _ n _ _ v Hp Hl L Hf).
         pose proof (cond_no_panic ipc tab r n t (mk_arg m) c (VStruct cur) M) as NP.
-        destruct (ev (VStruct cur) c) as [b| |] eqn:E; [|reflexivity|congruence].
+        destruct (ev (VStruct cur) c) as [b| |] eqn:E; [| |congruence].
+        2: { split; [reflexivity|]. apply Hpar. unfold ms_params_ok. cbn [forallb]. unfold marker_params_ok at 1. rewrite R.
+             destruct (rule_params_ok tab r (mk_arg m) t) eqn:RP; [|reflexivity].
+             exfalso. exact (cond_typed ipc tab r n t (mk_arg m) c cur v RP M Hf Ht E). }
         rewrite (cond_sound ipc tab r n t (mk_arg m) c cur v b M Hf Ht E).
         assert (IH' : forall s0, s_local s0 = None ->
                   good (runs root (checks_of (make_validators tab ms n t S parent)) sh s0) s0 (want_for ipc tab ms S parent n t v)).
-        { apply IH. intros vd' Hin. apply Hlook. right. exact Hin. }
+        { apply IH; [|exact Hpar']. intros vd' Hin. apply Hlook. right. exact Hin. }
         destruct b.
         * eapply (good_trans _ s _ [_]); [|apply IH'; reflexivity].
           cbn. rewrite map_app. cbn. repeat split; auto. lia.
